@@ -48,6 +48,338 @@ example : filePosition [0xE2, 0x80, 0xA8, 0x62] 1 4 = some (1, 4) ∧ Spec.posit
 /-- non-vacuity: <CR><LF> line ends are inside the proved region -/
 example : Spec.cleanAt [0x61, 13, 10, 0x62, 10, 0x63] 5 = true ∧ filePosition [0x61, 13, 10, 0x62, 10, 0x63] 1 6 = some (3, 1) := by decide
 
+/-! ## stack traces -/
+
+/-- the frame the code should hold for an activation -/
+def frameOfAct (a : Spec.Act) : Frame :=
+  { callee := a.name, native := a.native, file := if a.native then none else some 0, offset := a.cur }
+
+def FileOK (f : Frame) : Prop := f.file = if f.native then none else some 0
+
+theorem setTopOffset_cons (o : Int) (f : Frame) (r : Stack) :
+    setTopOffset o (f :: r) = { f with offset := o } :: r := rfl
+
+theorem runPre_noEval (pre : List Pre) : ∀ (f : Frame) (rest : Stack), Spec.hasEval pre = false →
+    ∃ o, runPre pre (f :: rest) = { f with offset := o } :: rest := by
+  induction pre with
+  | nil => intro f rest _; exact ⟨f.offset, rfl⟩
+  | cons p ps ih =>
+    intro f rest h
+    cases p with
+    | doneCall fm off =>
+      have h' : Spec.hasEval ps = false := by simpa [Spec.hasEval] using h
+      obtain ⟨o, ho⟩ := ih { f with offset := atvOf fm off } rest h'
+      exact ⟨o, by simp [runPre, setTopOffset, ho]⟩
+    | directEval off k => simp [Spec.hasEval] at h
+
+def LevelOK (lv : Level) : Prop := lv.form ≠ .other ∧ lv.via ≠ .implicit ∧ Spec.hasEval lv.pre = false
+
+theorem atvOf_recorded (fm : Form) (off : Int) (h : fm ≠ .other) : atvOf fm off = off := by
+  cases fm <;> simp_all [atvOf]
+
+theorem stack_shape (ls : List Level) : ∀ (top : Frame) (rest : Stack) (cur : Int), FileOK top →
+    (∀ lv ∈ ls, LevelOK lv) →
+    setTopOffset cur (enterLevels 0 ls (top :: rest)) =
+      ((Spec.acts top.callee top.native ls cur).reverse.map frameOfAct) ++ rest := by
+  induction ls with
+  | nil =>
+    intro top rest cur hf _
+    simp only [enterLevels, setTopOffset_cons, Spec.acts, List.reverse_cons, List.reverse_nil, List.nil_append,
+      List.map_cons, List.map_nil, List.cons_append, frameOfAct]
+    congr 1
+    cases top; simp_all [FileOK]
+  | cons lv ls ih =>
+    intro top rest cur hf hall
+    have hlv : LevelOK lv := hall lv (by simp)
+    have hls : ∀ l ∈ ls, LevelOK l := fun l hl => hall l (by simp [hl])
+    obtain ⟨hform, hvia, hev⟩ := hlv
+    obtain ⟨o, ho⟩ := runPre_noEval lv.pre top rest hev
+    have htop : ({ top with offset := lv.off } : Frame) = frameOfAct { name := top.callee, native := top.native, cur := lv.off } := by
+      cases top; simp_all [FileOK, frameOfAct]
+    simp only [enterLevels, enterLevel, ho, setTopOffset_cons, atvOf_recorded _ _ hform]
+    cases hv : lv.via with
+    | implicit => exact absurd hv hvia
+    | direct =>
+      simp only [Spec.acts, hv]
+      rw [ih (nodeFrame lv.name 0) _ cur (by simp [FileOK, nodeFrame]) hls]
+      simp [nodeFrame, htop]
+    | construct =>
+      simp only [Spec.acts, hv]
+      rw [ih (nodeFrame lv.name 0) _ cur (by simp [FileOK, nodeFrame]) hls]
+      simp [nodeFrame, htop]
+    | bound =>
+      simp only [Spec.acts, hv]
+      rw [ih (nodeFrame lv.name 0) _ cur (by simp [FileOK, nodeFrame]) hls]
+      simp [nodeFrame, htop]
+    | viaNative n =>
+      simp only [Spec.acts, hv]
+      rw [ih (nodeFrame lv.name 0) _ cur (by simp [FileOK, nodeFrame]) hls]
+      simp [nodeFrame, htop, nativeFrame, frameOfAct]
+    | nativeOnly =>
+      simp only [Spec.acts, hv]
+      rw [ih (nativeFrame lv.name) _ cur (by simp [FileOK, nativeFrame]) hls]
+      simp [nativeFrame, htop]
+
+/-- all activations but the innermost, outermost first -/
+def outerActs (name : String) (native : Bool) : List Level → List Spec.Act
+  | [] => []
+  | lv :: ls =>
+    match lv.via with
+    | .viaNative n => { name := name, native := native, cur := lv.off } :: { name := n, native := true, cur := 0 } :: outerActs lv.name false ls
+    | .nativeOnly => { name := name, native := native, cur := lv.off } :: outerActs lv.name true ls
+    | _ => { name := name, native := native, cur := lv.off } :: outerActs lv.name false ls
+
+def innerAct (name : String) (native : Bool) : List Level → Int → Spec.Act
+  | [], cur => { name := name, native := native, cur := cur }
+  | lv :: ls, cur =>
+    match lv.via with
+    | .nativeOnly => innerAct lv.name true ls cur
+    | _ => innerAct lv.name false ls cur
+
+theorem acts_split (ls : List Level) : ∀ (name : String) (native : Bool) (cur : Int),
+    Spec.acts name native ls cur = outerActs name native ls ++ [innerAct name native ls cur] := by
+  induction ls with
+  | nil => intro name native cur; rfl
+  | cons lv ls ih =>
+    intro name native cur
+    cases hv : lv.via <;> simp [Spec.acts, outerActs, innerAct, hv, ih]
+
+theorem outerActs_nonneg (ls : List Level) : ∀ (name : String) (native : Bool),
+    (∀ lv ∈ ls, 0 ≤ lv.off) → ∀ a ∈ outerActs name native ls, 0 ≤ a.cur := by
+  induction ls with
+  | nil => intro _ _ _ a ha; simp [outerActs] at ha
+  | cons lv ls ih =>
+    intro name native hall a ha
+    have h0 : 0 ≤ lv.off := hall lv (by simp)
+    have hls : ∀ l ∈ ls, 0 ≤ l.off := fun l hl => hall l (by simp [hl])
+    cases hv : lv.via <;> simp only [outerActs, hv, List.mem_cons] at ha <;>
+      (rcases ha with ha | ha) <;> first
+        | (subst ha; simpa using h0)
+        | exact ih _ _ hls a ha
+        | (rcases ha with ha | ha <;> first | (subst ha; simp) | exact ih _ _ hls a ha)
+
+theorem innerAct_native (ls : List Level) : ∀ (name : String) (native : Bool) (cur : Int),
+    (innerAct name native ls cur).native =
+      (match ls.getLast? with | some lv => lv.via == .nativeOnly | none => native) := by
+  induction ls with
+  | nil => intro _ _ _; rfl
+  | cons lv ls ih =>
+    intro name native cur
+    cases ls with
+    | nil => cases hv : lv.via <;> simp [innerAct, hv]
+    | cons l2 ls2 =>
+      rw [List.getLast?_cons_cons, innerAct]
+      cases hv : lv.via <;> rw [ih] <;>
+        (cases hg : (l2 :: ls2).getLast? with
+          | none => simp at hg
+          | some x => rfl)
+
+theorem innerAct_cur (ls : List Level) : ∀ (name : String) (native : Bool) (cur : Int),
+    (innerAct name native ls cur).cur = cur := by
+  induction ls with
+  | nil => intro _ _ _; rfl
+  | cons lv ls ih => intro name native cur; cases hv : lv.via <;> simp [innerAct, hv, ih]
+
+theorem cons_walkOuter (x : Frame) (T : Stack) (limit : Int) (h : ∀ f ∈ T, nonneg f = true) :
+    x :: walkOuter T limit = Spec.applyLimit limit (x :: T) := by
+  by_cases hl : limit ≤ 0
+  · rw [walkOuter_unlimited T limit hl, List.filter_eq_self.mpr h]
+    have : ¬ limit ≥ 1 := by omega
+    simp [Spec.applyLimit, this]
+  · obtain ⟨n, hn⟩ : ∃ n : Nat, limit = (n : Int) + 1 := ⟨(limit - 1).toNat, by omega⟩
+    subst hn
+    rw [walkOuter_limited, List.filter_eq_self.mpr (fun f hf => h f (List.mem_of_mem_take hf))]
+    have h1 : (n : Int) + 1 ≥ 1 := by omega
+    have h2 : ((n : Int) + 1).toNat = n + 1 := by omega
+    simp [Spec.applyLimit, h1, h2]
+
+theorem loc_act (fname : String) (src : Src) (more : List FileEnt) (a : Spec.Act)
+    (h : a.native = true ∨ Spec.cleanAt src (a.cur - 1) = true) :
+    location (⟨fname, src⟩ :: more) (frameOfAct a) = Spec.actOut fname src a := by
+  cases hn : a.native with
+  | true => simp [location, frameOfAct, Spec.actOut, hn]
+  | false =>
+    have hc : Spec.cleanAt src (a.cur - 1) = true := by simpa [hn] using h
+    simp only [location, frameOfAct, Spec.actOut, hn, Bool.false_eq_true, if_false, List.getElem?_cons_zero]
+    rw [position_lf src a.cur hc]
+    cases Spec.positionAt src (a.cur - 1) with
+    | none => rfl
+    | some p => rfl
+
+theorem applyLimit_map {α β : Type} (g : α → β) (limit : Int) (l : List α) :
+    (Spec.applyLimit limit l).map g = Spec.applyLimit limit (l.map g) := by
+  unfold Spec.applyLimit
+  split <;> simp [List.map_take]
+
+theorem trace_complete_partial (fname : String) (src : Src) (more : List FileEnt) (limit : Int) (sc : Scenario)
+    (hdev : Spec.traceDevs src sc = [])
+    (hoff : ∀ lv ∈ sc.levels, 0 ≤ lv.off) :
+    trace (⟨fname, src⟩ :: more) limit sc = Spec.trace fname src limit sc := by
+  -- unpack the region predicates
+  simp only [Spec.traceDevs, List.append_eq_nil_iff] at hdev
+  obtain ⟨⟨⟨⟨h1, h2⟩, h3⟩, h4⟩, h5⟩ := hdev
+  have h1 : Spec.devUnrecorded sc = false := by cases h : Spec.devUnrecorded sc <;> simp_all
+  have h2 : Spec.devImplicit sc = false := by cases h : Spec.devImplicit sc <;> simp_all
+  have h3 : Spec.devEvalFile sc = false := by cases h : Spec.devEvalFile sc <;> simp_all
+  have h4 : Spec.devErrPos sc = false := by cases h : Spec.devErrPos sc <;> simp_all
+  have h5 : Spec.devPositionCR src sc = false := by cases h : Spec.devPositionCR src sc <;> simp_all
+  have hlv : ∀ lv ∈ sc.levels, LevelOK lv := by
+    intro lv hm
+    simp only [Spec.devUnrecorded, List.any_eq_false] at h1
+    simp only [Spec.devImplicit, List.any_eq_false] at h2
+    simp only [Spec.devEvalFile, Bool.or_eq_false_iff, List.any_eq_false] at h3
+    have a1 := h1 lv hm
+    have a2 := h2 lv hm
+    have a3 := h3.1 lv hm
+    refine ⟨?_, ?_, ?_⟩
+    · intro hf; simp_all
+    · intro hv; simp_all
+    · simpa using a3
+  have hpre : Spec.hasEval sc.pre = false := by
+    simp only [Spec.devEvalFile, Bool.or_eq_false_iff] at h3; exact h3.2
+  -- the scope chain at the raising construct
+  have hS : ∀ cur, setTopOffset cur (enterLevels 0 sc.levels (globalStack 0)) =
+      frameOfAct (innerAct "" false sc.levels cur) :: (outerActs "" false sc.levels).reverse.map frameOfAct := by
+    intro cur
+    have := stack_shape sc.levels { callee := "", file := some 0 } [] cur (by simp [FileOK]) hlv
+    simpa [globalStack, acts_split] using this
+  -- outer frames all pass the `offset >= 0` filter
+  have hT : ∀ f ∈ (outerActs "" false sc.levels).reverse.map frameOfAct, nonneg f = true := by
+    intro f hf
+    simp only [List.mem_map, List.mem_reverse] at hf
+    obtain ⟨a, ha, rfl⟩ := hf
+    have := outerActs_nonneg sc.levels "" false hoff a ha
+    simpa [nonneg, frameOfAct] using this
+  -- positions of every expected frame are computed alike
+  have hpos : ∀ a ∈ Spec.acts "" false sc.levels (Spec.raiseOff sc.raise),
+      a.native = true ∨ Spec.cleanAt src (a.cur - 1) = true := by
+    intro a ha
+    simp only [Spec.devPositionCR, List.any_eq_false] at h5
+    have := h5 a ha
+    cases hn : a.native <;> simp_all
+  have hinner : (innerAct "" false sc.levels (Spec.raiseOff sc.raise)).native = Spec.innermostNative sc.levels := by
+    rw [innerAct_native]; rfl
+  -- shape of the spec side
+  have hspec : Spec.trace fname src limit sc = Spec.applyLimit limit
+      ((frameOfAct (innerAct "" false sc.levels (Spec.raiseOff sc.raise)) ::
+        (outerActs "" false sc.levels).reverse.map frameOfAct).map (location (⟨fname, src⟩ :: more))) := by
+    simp only [Spec.trace, acts_split, List.reverse_append, List.reverse_cons, List.reverse_nil, List.nil_append,
+      List.cons_append, List.map_cons, List.map_map]
+    congr 2
+    · rw [loc_act]
+      exact hpos _ (by simp [acts_split])
+    · apply List.map_congr_left
+      intro a ha
+      simp only [Function.comp]
+      rw [loc_act]
+      exact hpos _ (by simp only [acts_split]; simp at ha; simp [ha])
+  -- the code side: head frame (possibly with a different offset when native) followed by the walk
+  have hcode : ∃ x : Frame, location (⟨fname, src⟩ :: more) x =
+        location (⟨fname, src⟩ :: more) (frameOfAct (innerAct "" false sc.levels (Spec.raiseOff sc.raise))) ∧
+      traceFrames limit sc = x :: walkOuter ((outerActs "" false sc.levels).reverse.map frameOfAct) limit := by
+    -- name the scope chain
+    cases hSt : enterLevels 0 sc.levels (globalStack 0) with
+    | nil => have := hS 0; rw [hSt] at this; simp [setTopOffset] at this
+    | cons f rest =>
+      have hS' : ∀ cur, ({ f with offset := cur } : Frame) = frameOfAct (innerAct "" false sc.levels cur) ∧
+          rest = (outerActs "" false sc.levels).reverse.map frameOfAct := by
+        intro cur
+        have := hS cur
+        rw [hSt, setTopOffset_cons] at this
+        exact List.cons.inj this
+      have hrest := (hS' 0).2
+      obtain ⟨o, ho⟩ := runPre_noEval sc.pre f rest hpre
+      simp only [traceFrames, raiseTrace, hSt, ho]
+      cases hr : sc.raise with
+      | withAt off =>
+        refine ⟨{ f with offset := off }, by rw [(hS' off).1]; simp [Spec.raiseOff, hr], ?_⟩
+        simp [newErrorTrace, popScopes, hrest]
+      | nonFn fm off =>
+        have hfm : fm ≠ .other := by
+          intro hfm; subst hfm; simp [Spec.devErrPos, hr] at h4
+        refine ⟨{ f with offset := off }, by rw [(hS' off).1]; simp [Spec.raiseOff, hr], ?_⟩
+        simp [newErrorTrace, popScopes, hrest, atvOf_recorded _ _ hfm]
+      | siteBare fm off =>
+        have hfm : fm ≠ .other := by
+          intro hfm; subst hfm; simp [Spec.devErrPos, hr] at h4
+        refine ⟨{ f with offset := off }, by rw [(hS' off).1]; simp [Spec.raiseOff, hr], ?_⟩
+        simp [newErrorTrace, popScopes, hrest, atvOf_recorded _ _ hfm, setTopOffset_cons]
+      | bare off =>
+        have hnat : Spec.innermostNative sc.levels = true := by
+          simpa [Spec.devErrPos, hr] using h4
+        have hfn : f.native = true := by
+          have := (hS' (Spec.raiseOff sc.raise)).1
+          have h2 := congrArg Frame.native this
+          simp only [frameOfAct] at h2
+          rw [hinner, hnat] at h2
+          exact h2
+        refine ⟨{ f with offset := o }, ?_, ?_⟩
+        · rw [← (hS' (Spec.raiseOff (.bare off))).1]
+          simp [location, hfn]
+        · simp [newErrorTrace, popScopes, hrest]
+  obtain ⟨x, hx, hcode⟩ := hcode
+  rw [hspec, trace, hcode, List.map_cons, hx, ← List.map_cons, cons_walkOuter _ _ _ hT, applyLimit_map]
+
+
+/-- `newError`: with every outer scope recorded, the trace is the scope chain cut to the limit;
+    a limit ≤ 0 never reaches `limit == 0` after `limit--`, i.e. means "no limit". -/
+theorem trace_limit (f : Frame) (outer : Stack) (limit : Int) (atv : Option Int)
+    (h : ∀ g ∈ outer, g.offset ≥ 0) :
+    (newErrorTrace (f :: outer) limit 0 atv).length =
+      if limit ≥ 1 then min limit.toNat (outer.length + 1) else outer.length + 1 := by
+  have hn : ∀ g ∈ outer, nonneg g = true := fun g hg => by simpa [nonneg] using h g hg
+  simp only [newErrorTrace, popScopes]
+  rw [cons_walkOuter _ _ _ hn]
+  unfold Spec.applyLimit
+  split <;> simp [List.length_take]
+
+/-- in general a positive limit bounds the scopes *visited*, not the frames kept: scopes whose offset is
+    negative are skipped but still count -/
+theorem trace_limit_visits (f : Frame) (outer : Stack) (n : Nat) (atv : Option Int) :
+    (newErrorTrace (f :: outer) ((n : Int) + 1) 0 atv).tail = (outer.take n).filter nonneg := by
+  simp [newErrorTrace, popScopes, walkOuter_limited]
+
+/-- non-vacuity of `trace_complete_partial`: f calls g through a method, g reads an undefined variable -/
+example :
+    let src : Src := [102, 117, 110, 99, 116, 105, 111, 110, 32, 103, 40, 41, 123, 32, 122, 122, 122, 32, 125, 10, 118, 97, 114, 32, 111, 32, 61, 32, 123, 109, 58, 32, 102, 117, 110, 99, 116, 105, 111, 110, 32, 102, 40, 41, 123, 32, 103, 40, 41, 32, 125, 125, 10, 111, 46, 109, 40, 41]  -- 'function g(){ zzz }\nvar o = {m: function f(){ g() }}\no.m()'
+    let sc : Scenario := { levels := [⟨.direct, .dot, "f", 54, []⟩, ⟨.direct, .ident, "g", 47, []⟩], pre := [], raise := .withAt 15 }
+    Spec.traceDevs src sc = [] ∧
+    trace [⟨"", src⟩] 10 sc =
+      [⟨"g", .at "<anonymous>" 1 15⟩, ⟨"f", .at "<anonymous>" 2 27⟩, ⟨"", .at "<anonymous>" 3 1⟩] := by
+  decide
+
+/-- Dev `trace_unrecorded_callee`: the caller of an IIFE disappears from the trace. -/
+example :
+    let src : Src := [102, 117, 110, 99, 116, 105, 111, 110, 32, 102, 40, 41, 123, 32, 40, 102, 117, 110, 99, 116, 105, 111, 110, 40, 41, 123, 32, 122, 122, 122, 32, 125, 41, 40, 41, 32, 125, 10, 102, 40, 41]  -- 'function f(){ (function(){ zzz })() }\nf()'
+    let sc : Scenario := { levels := [⟨.direct, .ident, "f", 39, []⟩, ⟨.direct, .other, "", 16, []⟩], pre := [], raise := .withAt 28 }
+    Spec.traceDevs src sc = ["trace_unrecorded_callee"] ∧
+    trace [⟨"", src⟩] 10 sc ≠ Spec.trace "" src 10 sc := by
+  decide
+
+/-- Dev `trace_implicit_call: a getter is entered without any call site being recorded in f`. -/
+example :
+    let src : Src := [118, 97, 114, 32, 111, 32, 61, 32, 123, 103, 101, 116, 32, 120, 40, 41, 123, 32, 122, 122, 122, 59, 32, 125, 125, 59, 10, 102, 117, 110, 99, 116, 105, 111, 110, 32, 102, 40, 41, 123, 32, 111, 46, 120, 59, 32, 125, 10, 102, 40, 41, 59]  -- 'var o = {get x(){ zzz; }};\nfunction f(){ o.x; }\nf();'
+    let sc : Scenario := { levels := [⟨.direct, .ident, "f", 49, []⟩, ⟨.implicit, .other, "", 42, []⟩], pre := [], raise := .withAt 19 }
+    Spec.traceDevs src sc = ["trace_implicit_call"] ∧
+    trace [⟨"", src⟩, ⟨"", [0x31]⟩] 10 sc ≠ Spec.trace "" src 10 sc := by
+  decide
+
+/-- Dev `trace_eval_file: after a direct eval the positions in f are looked up in the eval source`. -/
+example :
+    let src : Src := [102, 117, 110, 99, 116, 105, 111, 110, 32, 102, 40, 41, 123, 32, 101, 118, 97, 108, 40, 34, 49, 34, 41, 59, 10, 32, 122, 122, 122, 59, 32, 125, 10, 102, 40, 41, 59]  -- 'function f(){ eval("1");\n zzz; }\nf();'
+    let sc : Scenario := { levels := [⟨.direct, .ident, "f", 34, []⟩], pre := [.directEval 15 1], raise := .withAt 27 }
+    Spec.traceDevs src sc = ["trace_eval_file"] ∧
+    trace [⟨"", src⟩, ⟨"", [0x31]⟩] 10 sc ≠ Spec.trace "" src 10 sc := by
+  decide
+
+/-- Dev `errpos_no_at: instanceof on a non-object reports no position`. -/
+example :
+    let src : Src := [102, 117, 110, 99, 116, 105, 111, 110, 32, 102, 40, 41, 123, 10, 32, 32, 49, 32, 105, 110, 115, 116, 97, 110, 99, 101, 111, 102, 32, 50, 59, 32, 125, 10, 102, 40, 41, 59]  -- 'function f(){\n  1 instanceof 2; }\nf();'
+    let sc : Scenario := { levels := [⟨.direct, .ident, "f", 35, []⟩], pre := [], raise := .bare 17 }
+    Spec.traceDevs src sc = ["errpos_no_at"] ∧
+    trace [⟨"", src⟩, ⟨"", [0x31]⟩] 10 sc ≠ Spec.trace "" src 10 sc := by
+  decide
+
 /-! ## classes -/
 
 theorem error_class (k : ErrKind) :
